@@ -22,11 +22,14 @@ SPEC = {
             'ChainSupport (dest support yes/no/error, known sources 0..5 or error), scripted remote (clean/global/dest/read failure/one/some/all sources/'
             'unrelated chains) and NextSeqNum reader (ok/error/one answer short); obs_exec: Plugin.getCommitReportsObservation with the same scripts plus commit '
             'reports on the destination for known sources and for a chain outside the known list, reader failure; acc_*: ShouldAcceptAttestedReport of both '
-            'plugins on reports naming 0..3 source chains (also the same chain twice), price-only reports, RMN on/off, bad report info. In the three plugin-level '
+            'plugins on reports naming 0..3 source chains (also the same chain twice), price-only reports, RMN on/off, bad report info. In the plugin-level parts a failing curse read '
+            'ranges over error kinds (plain, wrapping reader.ErrContractReaderNotFound, wrapping contractreader.ErrNoBindings, both, context deadline / cancellation, error with a '
+            'non-nil answer) and over states of the REAL ccipChainReader (no destination reader, RMNRemote not bound, bound with failing call, bound and cursed globally / '
+            'destination / per lane / clean), with a global or lane curse on chain while the read fails. In the three plugin-level '
             'parts one plugin instance receives 1..4 calls while the remote changes between them (history/* classes). non-trivial = subjects and sources non-empty '
             '(subj), >= 2 known sources / pending chains and destination supported (obs), report names >= 1 source (acc); distinct by full input',
-    'trusted': ['the contract reader returning the cursed subjects of the destination RMN remote (GetRmnCurseInfo wrapper around getCurseInfoFromCursedSubjects is '
-                'not exercised; the plugin-level fake answers like it: only for the chains asked about)',
+    'trusted': ['the chain-level contract reader underneath ccipChainReader (scripted facade returning the cursed subjects / failing); two fifths of the '
+                'plugin-level curse reads go through the real ccipChainReader.GetRmnCurseInfo, the rest through a fake that answers like it (only for the chains asked about)',
                 'ChainSupport / home chain answers, NextSeqNum and CommitReportsGTETimestamp are oracles (scripted fakes)',
                 'report codec decode results (JSON mock codec of the repository)'],
     'assumptions': ['libocr calls the callbacks one at a time per instance; curse state is whatever the reader returns at each call'],
